@@ -467,10 +467,12 @@ def task_subset(nr, twins=False):
 
 
 REPLAY_UB = '''
+from collections import OrderedDict, defaultdict
 from chempy import ReactionSystem, Substance
 rxn_strs = %(rxns)r
 c0 = %(c0)s
 c = %(c)s
+dflt = %(dflt)s
 rsys = ReactionSystem.from_string("\\n".join(s + "; 1" for s in rxn_strs), substance_factory=Substance.from_formula)
 names = list(rsys.substances)
 before = {n: dict(rsys.substances[n].composition) for n in names}
@@ -479,15 +481,31 @@ ub = rsys.upper_conc_bounds([c0[n] for n in names], min_=min, dtype=object)
 bad = []
 if {n: dict(rsys.substances[n].composition) for n in names} != before: bad.append("the query changed the compositions of the substances")
 if rsys.composition_balance_vectors() != cbv_before: bad.append("composition_balance_vectors differs after the query")
-tot = {}
-for n in names:
-    for e, a in rsys.substances[n].composition.items():
-        if e != 0: tot[e] = tot.get(e, 0) + a * c0[n]
-for n, u in zip(names, ub):
-    cand = [tot[e] / a for e, a in rsys.substances[n].composition.items() if e != 0]
-    exp = min(cand) if cand else float("inf")
+def expected(state):
+    tot = {}
+    for n in names:
+        for e, a in rsys.substances[n].composition.items():
+            if e != 0: tot[e] = tot.get(e, 0) + a * state[n]
+    out = []
+    for n in names:
+        cand = [tot[e] / a for e, a in rsys.substances[n].composition.items() if e != 0]
+        out.append(min(cand) if cand else float("inf"))
+    return out
+for n, u, exp in zip(names, ub, expected(c0)):
     if u != exp: bad.append("upper bound of %%s is %%s, expected min(total/atoms) = %%s" %% (n, u, exp))
     if c is not None and c[n] > u: bad.append("state with the same element totals exceeds the bound of %%s: %%s > %%s" %% (n, c[n], u))
+ref = [c0[n] for n in names]
+sparse_state = {n: (c0[n] if n == names[0] else dflt) for n in names}
+def kinds():   # fresh objects for every call: reading a defaultdict inserts the keys it was asked for
+    return [("dict", dict(c0), c0), ("reversed OrderedDict", OrderedDict(reversed(list(c0.items()))), c0), ("defaultdict", defaultdict(lambda: 0, c0), c0),
+            ("list", list(ref), c0), ("tuple", tuple(ref), c0),
+            ("defaultdict with a non-zero default and one key", defaultdict(lambda: dflt, {names[0]: c0[names[0]]}), sparse_state)]
+for kn, kv, state in kinds():
+    u2 = list(rsys.upper_conc_bounds(kv, min_=min, dtype=object))
+    if u2 != expected(state): bad.append("upper_conc_bounds(%%s) = %%s, expected %%s" %% (kn, u2, expected(state)))
+for kn, kv, state in kinds():
+    arr = list(rsys.as_per_substance_array(kv, dtype=object))
+    if arr != [state[n] for n in names]: bad.append("as_per_substance_array(%%s) = %%s, expected %%s" %% (kn, arr, [state[n] for n in names]))
 for b in bad: print("MISMATCH", b)
 sys.exit(1 if bad else 0)
 '''
@@ -506,11 +524,14 @@ def task_bounds(systems):
         names = list(rsys.substances)
         c0 = {n: Real("c0_%d" % i) for i, n in enumerate(names)}
         c = {n: Real("c_%d" % i) for i, n in enumerate(names)}
-        assum = [v.t >= 0 for v in c0.values()]
+        dflt = Real("dflt")
+        assum = [v.t >= 0 for v in c0.values()] + [dflt.t >= 0]
+        sparse_state = {n: (c0[n] if n == names[0] else dflt) for n in names}
         comps = {n: {e: a for e, a in rsys.substances[n].composition.items() if e != 0} for n in names}
         elems = sorted(set().union(*[set(d) for d in comps.values()]))
         full = {n: dict(rsys.substances[n].composition) for n in names}  # incl. the charge entry
         alt_ok = []
+        sparse_out = []
         cbv0 = rsys.composition_balance_vectors()
 
         def fn():
@@ -524,6 +545,10 @@ def task_bounds(systems):
                     rsys.as_per_substance_array(tuple(c0[n_] for n_ in names), dtype=object)]
             alt_ok.append(alts)
             ub = rsys.upper_conc_bounds(c0, min_=min, dtype=object)
+            # a defaultdict with a NON-ZERO default that lists one species only: every other species is at the default
+            sparse_out.append((rsys.as_per_substance_array(_dd(lambda: dflt, {names[0]: c0[names[0]]}), dtype=object),
+                               rsys.upper_conc_bounds(_dd(lambda: dflt, {names[0]: c0[names[0]]}), min_=min, dtype=object),
+                               rsys.upper_conc_bounds(_OD(reversed(list(c0.items()))), min_=min, dtype=object)))
             # history: a query must leave the system as it was (the substances are shared with every other view of the system)
             untouched = {n: dict(rsys.substances[n].composition) for n in names} == full and rsys.composition_balance_vectors() == cbv0
             return ub, arr, back, untouched
@@ -539,6 +564,23 @@ def task_bounds(systems):
                 return False
             for i, n in enumerate(names):
                 conds += [eq_term(arr[i], c0[n]), eq_term(back[n], c0[n])]
+            if not sparse_out or any(len(x_) != len(names) for x_ in sparse_out[-1]):
+                return False
+            sp_arr, sp_ub, od_ub = sparse_out[-1]
+            conds += [eq_term(sp_arr[i_], sparse_state[n_]) for i_, n_ in enumerate(names)]
+            tot_s = {e: sum(comps[n].get(e, 0) * sparse_state[n] for n in names if e in comps[n]) for e in elems}
+            for n, u_s, u_od, u in zip(names, sp_ub, od_ub, ub):
+                cand_s = [tot_s[e] / a for e, a in comps[n].items()]
+                if not cand_s:
+                    if u_s != float("inf") or u_od != float("inf"):
+                        return False
+                    continue
+                if any(isinstance(x_, float) and (x_ != x_ or x_ in (float("inf"), float("-inf"))) for x_ in (u_s, u_od)):
+                    return False
+                conds.append(z3.And(*[lift(u_s) <= lift(x) for x in cand_s]))
+                conds.append(z3.Or(*[lift(u_s) == lift(x) for x in cand_s]))
+                if not (isinstance(u, float) and u != u):
+                    conds.append(eq_term(u_od, u))
             tot = {e: sum(comps[n].get(e, 0) * c0[n] for n in names if e in comps[n]) for e in elems}
             same = [z3.Sum([comps[n][e] * c[n].t for n in names if e in comps[n]]) == lift(tot[e]) for e in elems]
             nonneg = [c[n].t >= 0 for n in names]
@@ -569,7 +611,7 @@ def task_bounds(systems):
             cc0 = concretize(m, c0)
             cc = concretize(m, c)
             res["violations"].append(dict(key="upper_conc_bounds:%s" % p.kind, desc="system %s c0=%s" % (rxn_strs, cc0),
-                                          replay_src=REPLAY_UB % dict(rxns=rxn_strs, c0=pyrepr(cc0), c=pyrepr(cc))))
+                                          replay_src=REPLAY_UB % dict(rxns=rxn_strs, c0=pyrepr(cc0), c=pyrepr(cc), dflt=pyrepr(concretize(m, [dflt])[0]))))
         if tw is None:
             ot = explore_and_prove(fn, assum, lambda p: goal(p, True), max_paths=20000, deadline_s=60, max_fail=1)
             tw = twin_verdict(ot)
